@@ -165,7 +165,36 @@ theorem C13_div_D13_counterexample :
   covered per input by running the proven validator on the real plan.
 -/
 
--- PLANNER_PARTIAL_PLACEHOLDER
+/-- **Planner theorem, partial**: strictly increasing old and new divisions with equal end points
+    (the documented use of `repartition(divisions=…)`), any `force`, any length: the planner succeeds
+    and its plan passes the validator — hence (`C13_div_validator`, `C13_div_run`) the emitted graph
+    returns the input rows in order, partitioned along `b`. -/
+theorem C13_div_planner_partial (a b : List Int) (force : Bool)
+    (ha : isStrictSorted a = true) (hb : isStrictSorted b = true)
+    (hla : 2 ≤ a.length) (hlb : 2 ≤ b.length)
+    (h0 : a.head? = b.head?) (hn : a.getLast? = b.getLast?) :
+    ∃ st, planner a b force = .ok st ∧ closedOK st = true ∧ planOK a b (planOf st) = true :=
+  planner_strict a b force ha hb hla hlb h0 hn
+
+example : isStrictSorted [0, 2, 4, 9] = true ∧ isStrictSorted [0, 1, 4, 5, 9] = true := by decide
+
+/-- End-to-end corollary for that class: the emitted *graph* evaluates (no error) to outputs that hold
+    exactly the input rows in order and satisfy the new divisions, for every input satisfying the old ones. -/
+theorem C13_div_strict_end_to_end (I : Interp) (a b : List Int) (force : Bool) (n : Nat) (parts : Nat → List Row)
+    (ha : isStrictSorted a = true) (hb : isStrictSorted b = true)
+    (hla : 2 ≤ a.length) (hlb : 2 ≤ b.length)
+    (h0 : a.head? = b.head?) (hn : a.getLast? = b.getLast?) (hinv : DivInv a n parts) :
+    ∃ st outs, planner a b force = .ok st ∧ st.outs.length + 1 = b.length ∧
+      (∀ j, j < st.outs.length → run I (divTask st) (Repartition.inputs parts) 2 (.out j) = .frame (outs j)) ∧
+      (List.range st.outs.length).flatMap outs = (List.range n).flatMap parts ∧
+      DivInv b st.outs.length outs := by
+  obtain ⟨st, hp, hc, hok⟩ := planner_strict a b force ha hb hla hlb h0 hn
+  have ⟨h1, h2⟩ := planOK_sound a b (planOf st) n parts hok hinv
+  have hlen : (planOf st).length = st.outs.length := by simp [planOf]
+  rw [hlen] at h1 h2
+  exact ⟨st, runPlan (planOf st) parts, hp, by have := h2.len; omega,
+    fun j hj => run_div_out I st parts hc j hj, h1, h2⟩
+
 
 /-! ### requests that cannot be satisfied are rejected -/
 
